@@ -25,6 +25,8 @@ STORE_FNS = ["Database::get_value", "Database::set_value_version", "Database::se
 
 K_NEXT_VERSION = dict(name="c02_next_version__next_version", function="Change::next_version", label="C02.next-version-kani", complete=True,
                       bound="none: all i32 x i32 x bool, loop-free", src="src/lib/bo.rs (Change::next_version)", timeout=600)
+K_LIVE_VERSION = dict(name="c06_live_version__live_version", function="live_version", label="C06.live-version-kani", complete=True,
+                      bound="none: all i32, loop-free", src="src/lib/bo.rs (live_version)", timeout=600)
 K_FILTER = dict(name="c08_listing_hides_secure__filter_system_keys", function="filter_system_keys", label="C08.listing-hides-secure", complete=False,
                 bound="key <= 3 printable ASCII bytes (the function inspects only the 2-byte prefix)", src="src/lib/bo.rs (filter_system_keys)", timeout=900,
                 tier="thorough")
@@ -142,6 +144,7 @@ PROPS = {
     ),
     "C06": dict(
         units=["snapshot", "store"],
+        kani=[K_LIVE_VERSION],
         undecided=["the whole-history half for INCREMENTAL snapshots: that the image produced by the write plan loads back to the snapshotted state needs the cross-snapshot "
                    "invariant (every persisted key has exactly one record, at its remembered key_disk_addr, inside the key file; no stale records) - it is a "
                    "precondition here (mem_slots_inside), not an established invariant; the bounded sweep family `snapshot` exercises it on the real code",
